@@ -176,8 +176,10 @@ def effects(ctx) -> Effects:
     return ctx.src._verif_eff
 
 
-def check_own(ctx, fields):
-    """fields like 'Vertex._links' / 'TrueSingleton.__singleton_instances'."""
+def check_own(ctx, fields, actual=None):
+    """fields like 'Vertex._links' / 'TrueSingleton.__singleton_instances'; `actual` maps a spec to the field's name in this
+    tree when it was located by role."""
+    actual = actual or {}
     res = ctx.res
     eff = effects(ctx)
     prog = eff.prog
@@ -187,7 +189,10 @@ def check_own(ctx, fields):
         owner = next((c for c in prog.classes.values() if c.name == cname), None)
         if owner is None:
             raise SourceError(f"anchor class {cname} (owner of state {spec}) vanished")
-        field = owner.mangle(fname)
+        canonical = owner.mangle(fname)
+        field = actual.get(spec, canonical)
+        if field != canonical and field.startswith("_" + owner.name.lstrip("_") + "__"):
+            pass
         ws = eff.writers(field)
         if not ws:
             raise SourceError(f"anchor state {spec}: no statement in the package writes a field named {field}")
@@ -205,7 +210,7 @@ def check_own(ctx, fields):
                     continue
             if inside:
                 continue
-            if f.qual in OWN_EXCEPTIONS.get(field, {}):
+            if f.qual in OWN_EXCEPTIONS.get(canonical, {}):
                 continue
             if f.cls is None and f.name.startswith("_") and f.module.name == owner.module.name:
                 res.note(f"OWN: {f.loc()} private module-level helper {f.qual} writes {w.recv}.{field}; accepted as part of the owner's mechanism (same module, private)")
@@ -215,7 +220,7 @@ def check_own(ctx, fields):
                 continue
             res.undecide(f"OWN premise lost: {f.loc()} {f.qual} writes {w.recv}.{field} ({w.kind}) from outside the {cname} class hierarchy; the inductive proof for {spec} does not cover this writer")
         # ENTRY: public writers inside the hierarchy must be harnessed
-        covered = COVERED_ENTRY.get(field)
+        covered = COVERED_ENTRY.get(canonical)
         if covered is not None:
             for c in prog.classes.values():
                 if c.qual not in hier:
